@@ -7,7 +7,7 @@ symbolically.  `pow2`, `be`, `ipow`, `gcd`, `bitlen` ... are spec forms (vf/pyvc
 SIG = {'isqrt': {'sort': 'int', 'uf': True,        # the integer square root exists (uninterpreted; its defining property as fact)
                  'facts': ['v >= 0 ==> (result >= 0 and result * result <= v and v < (result + 1) * (result + 1))']},
        'is_floor_quotient': 'bool', 'is_residue': 'bool', 'is_bit_size': 'bool', 'is_byte_size': 'bool', 'is_isqrt': 'bool',
-       'random_top': 'int', 'random_value': 'int', 'candidate': 'int', 'legacy_candidate': 'int', 'bits_candidate': 'int'}
+       'random_top': 'int', 'random_value': 'int', 'candidate': 'int', 'legacy_candidate': 'int', 'bits_candidate': 'int', 'horner4': 'int', 'horner8': 'int'}
 
 
 def is_floor_quotient(a, d, q):
@@ -120,4 +120,35 @@ def lemma_mul_divisible(a, b, c):
 
 def lemma_div_exact(a, b):
     """b > 0, b | a  ==>  |a // b| == |a| // b"""
+    return True
+
+
+def lemma_split_mul(a, b, c):
+    """b > 0  ==>  (a mod b) * c + (a div b) * (b * c) == a * c"""
+    return True
+
+
+def lemma_small_quot(a, b, c):
+    """a >= 0, b >= 0, c > 0, a + b*c < c  ==>  b == 0"""
+    return True
+
+
+def horner4(m):
+    """the big-endian digits of m (0 <= m < 256**4), recombined (Horner form, as struct '>I' packs and be() reads them)"""
+    return ((zmod(zdiv(m, 16777216), 256) * 256 + zmod(zdiv(m, 65536), 256)) * 256 + zmod(zdiv(m, 256), 256)) * 256 + zmod(zdiv(m, 1), 256)
+
+
+def horner8(m):
+    return ((((((zmod(zdiv(m, 72057594037927936), 256) * 256 + zmod(zdiv(m, 281474976710656), 256)) * 256
+                + zmod(zdiv(m, 1099511627776), 256)) * 256 + zmod(zdiv(m, 4294967296), 256)) * 256
+              + zmod(zdiv(m, 16777216), 256)) * 256 + zmod(zdiv(m, 65536), 256)) * 256 + zmod(zdiv(m, 256), 256)) * 256 + zmod(zdiv(m, 1), 256)
+
+
+def lemma_horner4(a):
+    """0 <= a < 256**4  ==>  horner4(a) == a"""
+    return True
+
+
+def lemma_horner8(a):
+    """0 <= a < 256**8  ==>  horner8(a) == a"""
     return True
